@@ -347,6 +347,15 @@ def fromForwardDenseWith (lmax N M : Nat) (shb : Nat → Nat → Nat → K) (g :
 def fromS2Grid (lmax N M : Nat) (n : Nat → K) (P : Nat → Nat → K) (g : Nat → Nat → K) : Except Err (Nat → K) :=
   fromForwardWith lmax N M (shbFrom lmax N M n P) g
 
+/-- `S2Activation.forward` (without `random_rot`): `from_s2(act(to_s2(x)))` where
+`to_s2 = ToS2Grid(lmax, res, normalization)`, `from_s2 = FromS2Grid(res, lmax_out, normalization, lmax_in=lmax)`
+and `act` is the already normalised activation (`normalize2mom(act)`) -/
+def s2Activation (kind : Norm) (lin lout N M : Nat) (act : K → K) (P : Nat → Nat → K) (F : Nat → K) :
+    Except Err (Nat → K) :=
+  match toS2Grid lin M (nTo kind lin) P F with
+  | .error e => .error e
+  | .ok g => fromS2Grid lout N M (nFrom kind lin) P (fun b a => act (g b a))
+
 /-! ### `SO3Grid` (integer `aspect_ratio`, `normalization = 'component'`) -/
 
 /-- `Σ_{l ≤ lmax} (2l+1)²`, the last dimension of `D` -/
